@@ -140,7 +140,7 @@ def eval_case(ctx, case):
     try:
         produce(net, steps, ipath)
     except Exception as e:  # noqa: BLE001
-        if "LinAlgError" in type(e).__name__:
+        if "LinAlgError" in type(e).__name__ or "invalid numeric entries" in str(e):
             ctx.count("producer_skipped_filter_divergence")
             return False
         raise
@@ -225,7 +225,10 @@ def eval_case(ctx, case):
         if b is not None:
             sk.teardown(b)
     # ---- gap must stop the run at the step of the gap with the documented error -------------------
-    if case["gap"] is not None and removed and removed[2] > 0:
+    diverged = raised is not None and ("LinAlgError" in raised[0] or "invalid numeric entries" in raised[2])
+    if diverged:
+        ctx.count("consumer_runs_stopped_by_filter_divergence")  # hostile estimate settings; not this property's subject
+    elif case["gap"] is not None and removed and removed[2] > 0:
         k_gap = case["gap"][1]
         if raised is None:
             pass  # already reported by stale-state-after-gap above
